@@ -103,13 +103,16 @@ def check(run: Run) -> None:
             unheld = [(n, f) for n, f, h in acc if not h]
             if unheld:
                 # must be inside the enter()/leave() bracket
+                # `if (!enter()) return ...;` directly followed by the scope-exit guard that calls leave(); every unguarded read
+                # lies AFTER the pair (statements before the pair -- a trace line, a local -- are fine as long as they do not read)
                 st = fa.body.stmts
-                ok = (len(st) >= 2 and isinstance(st[0], C.If) and cn(st[0].cond) == "!enter()" and
-                      any(isinstance(x, C.Return) for x in st[0].then.walk()) and isinstance(st[1], C.Decl) and
-                      isinstance(st[1].decls[0].init, C.Call) and R.callee_name(st[1].decls[0].init) == "make_scope_exit" and
-                      any(R.callee_name(c) == "leave" for c in R.calls(st[1].decls[0].init)))
+                gi = next((i for i, s0 in enumerate(st) if isinstance(s0, C.If) and cn(s0.cond) == "!enter()" and
+                           any(isinstance(x, C.Return) for x in s0.then.walk())), None)
+                ok = (gi is not None and gi + 1 < len(st) and isinstance(st[gi + 1], C.Decl) and
+                      isinstance(st[gi + 1].decls[0].init, C.Call) and R.callee_name(st[gi + 1].decls[0].init) == "make_scope_exit" and
+                      any(R.callee_name(c) == "leave" for c in R.calls(st[gi + 1].decls[0].init)))
                 first_two = set()
-                for s0 in st[:2]:
+                for s0 in st[:(gi + 2) if gi is not None else 0]:
                     first_two.update(id(x) for x in s0.walk())
                 ok = ok and all(id(n) not in first_two for n, _ in unheld)
                 run.count(len(unheld), "C16.a.bracket")
